@@ -1,7 +1,136 @@
-//! C15 — not implemented yet.
-use vcore::Ctx;
+//! C15 — driver, latch and read-before-assign checks are exact.
+//!
+//! Generator: `drv_gen` (driver dialect around the boundary).  Oracle:
+//! `drv_model` (property text on the harness' own IR).  Compared on the set
+//! of (diagnostic kind, variable); any other *error* makes the design fall
+//! outside the domain (skipped, counted).
 
-pub fn run(_ctx: &Ctx) {
-    println!("INCONCLUSIVE property=C15: check not implemented");
-    std::process::exit(2);
+use crate::drv_gen;
+use crate::drv_model::{self, Verdict};
+use crate::pipe;
+use std::collections::BTreeSet;
+use vcore::{CaseCfg, Ctx, Draw, Outcome, hash_str, json};
+
+const KINDS: [(&str, &str); 3] = [
+    ("multiple_assignment", "MultipleAssignment"),
+    ("uncovered_branch", "UncoveredBranch"),
+    ("unassign_variable", "UnassignVariable"),
+];
+
+fn base_name(ident: &str) -> &str {
+    let end = ident.find(['[', '.']).unwrap_or(ident.len());
+    &ident[..end]
+}
+
+pub fn decide(d: &mut Draw) -> Outcome {
+    let g = drv_gen::generate(d);
+    let text = g.design.text();
+    let an = drv_model::analyse(&g.design);
+    let Some(diags) = pipe::analyze(&text) else {
+        return Outcome::fail("harness:generated-design-does-not-parse", "generated design does not parse", json!({"src": text}));
+    };
+    // anything else that is an error: outside the domain
+    let mut actual: BTreeSet<(usize, usize)> = BTreeSet::new();
+    for dg in &diags {
+        if let Some(k) = KINDS.iter().position(|k| k.0 == dg.code) {
+            let name = base_name(&dg.ident);
+            match g.design.vars.iter().position(|v| v.name == name) {
+                Some(vi) => {
+                    actual.insert((k, vi));
+                }
+                None => {
+                    return Outcome::skip(format!("{} names something that is not a variable under test", dg.code));
+                }
+            }
+        } else if dg.is_error {
+            return Outcome::skip(format!("other error: {}", dg.code));
+        }
+    }
+    let mut problems: Vec<(String, String)> = vec![];
+    let mut open_hits = 0;
+    for (vi, ex) in an.vars.iter().enumerate() {
+        let name = &g.design.vars[vi].name;
+        let checks = [(0usize, ex.ma), (1, ex.ub), (2, ex.uv)];
+        for (k, verdict) in checks {
+            let got = actual.contains(&(k, vi));
+            match (verdict, got) {
+                (Verdict::Must, false) => {
+                    let tag = if k == 2 { ex.uv_missing_tag } else { "" };
+                    let sig = if tag.is_empty() {
+                        format!("{}-missing", KINDS[k].1)
+                    } else {
+                        format!("{}-missing:{tag}", KINDS[k].1)
+                    };
+                    let why = if k == 2 {
+                        format!(
+                            " (never-assigned bit read: {}, read before assignment on a path: {})",
+                            ex.uv_never, ex.uv_rbw
+                        )
+                    } else {
+                        String::new()
+                    };
+                    problems.push((sig, format!("{} expected for `{name}` but not reported{why}", KINDS[k].1)));
+                }
+                (Verdict::MustNot, true) => {
+                    let tag = if k == 1 { ex.ub_spurious_tag } else { "" };
+                    let sig = if tag.is_empty() {
+                        format!("{}-spurious", KINDS[k].1)
+                    } else {
+                        format!("{}-spurious:{tag}", KINDS[k].1)
+                    };
+                    problems.push((sig, format!("{} reported for `{name}` but the property does not allow it", KINDS[k].1)));
+                }
+                (Verdict::Open, _) => open_hits += 1,
+                _ => {}
+            }
+        }
+    }
+    if !problems.is_empty() {
+        // unnamed root causes first, so that a new deviation is never hidden
+        // behind a listed one in the same design
+        problems.sort_by_key(|p| (p.0.contains(':'), p.0.clone()));
+        let sig = problems[0].0.clone();
+        let msg = problems.iter().map(|p| format!("[{}] {}", p.0, p.1)).collect::<Vec<_>>().join("\n");
+        let reported: Vec<String> = actual
+            .iter()
+            .map(|(k, v)| format!("{}({})", KINDS[*k].1, g.design.vars[*v].name))
+            .collect();
+        return Outcome::fail(
+            sig,
+            format!("{msg}\nreported: {reported:?}\n--- design ---\n{text}"),
+            json!({"src": text, "reported": reported}),
+        );
+    }
+    let mut classes: Vec<String> = g.classes.iter().cloned().collect();
+    classes.extend(an.classes.iter().cloned());
+    if open_hits > 0 {
+        classes.push("has-open-verdict".into());
+    }
+    let expected_any = an
+        .vars
+        .iter()
+        .any(|e| e.ma == Verdict::Must || e.ub == Verdict::Must || e.uv == Verdict::Must);
+    classes.push(if actual.is_empty() { "verdict:clean".into() } else { "verdict:diagnosed".into() });
+    Outcome::pass(hash_str(&text), expected_any || g.boundary, classes, text)
+}
+
+pub fn run(ctx: &Ctx) {
+    if std::env::var("C15_DUMP").is_ok() {
+        // developer aid: print a few generated designs
+        for s in 0..6u32 {
+            let mut d = Draw::new((0..800u32).map(|i| vcore::hash64(format!("{s}/{i}").as_bytes()) as u32).collect());
+            let g = drv_gen::generate(&mut d);
+            println!("{}\n-----", g.design.text());
+        }
+        std::process::exit(0);
+    }
+    let n = ctx.scale(6000, 200_000);
+    ctx.run("drivers", CaseCfg::cases(n).choices(1500), decide);
+    ctx.assume("paths of an always_comb are its syntactic paths (every branch combination); a process is one always_ff / always_comb / assign / instance");
+    ctx.assume("an output port is read by the parent; reads are right-hand sides, conditions, case selectors and instance inputs");
+    ctx.assume("open cases accepted either way: full `case` without default; unassigned-and-unread variable; read and write on disjoint arms");
+    ctx.finish(
+        "exploration",
+        "driver-dialect designs (segment-first write plans around adjacent/overlapping/gapped ranges, branch shapes complete or incomplete by one arm / one bit); non-trivial = at least one diagnostic expected or a boundary split present; distinct by source text",
+    );
 }
